@@ -53,7 +53,7 @@ def with_extra_labels(inp):
     ex = inp.get('extra_labels')
     if not ex:
         return K
-    names = ['fair', 'fair0', 'fair1', 'fairness', 'unfair']
+    names = ['fair', 'fair0', 'fair', 'fair1', 'fair2', 'fair3', 'fair', 'fair4', 'fair5', 'fair6', 'fairness']
     labels = [list(l) for l in K['labels']]
     for (st_, k) in ex:
         nm_ = names[k % len(names)]
@@ -284,7 +284,7 @@ def random_shard(st, shard, nshards, payload):
                 'how': draw(hs.integers(0, 5)),
                 'fshape': draw(hs.sampled_from(['list-set', 'list-set', 'list-frozenset', 'tuple-set', 'tuple-frozenset'])),
                 'again': draw(hs.integers(0, 3)) == 0,
-                'extra_labels': draw(hs.lists(hs.tuples(hs.integers(0, 5), hs.integers(0, 4)).map(list), max_size=2))
+                'extra_labels': draw(hs.lists(hs.tuples(hs.integers(0, 5), hs.integers(0, 10)).map(list), min_size=1, max_size=4))
                 if draw(hs.integers(0, 2)) == 0 else None}
         if kind == 'fair':
             if F is None:
